@@ -3,24 +3,35 @@
   `ClassifyEncryptedStreamAndMakeDecoder`: "returns the same plaintext and
   identities as the direct entry point for the detected mode".
 
-  `Dispatch.dispatch` mirrors the Go control flow: classify (`bufio.NewReader`,
+  `Dispatch.dispatchEnd` mirrors the Go control flow: classify (`bufio.NewReader`,
   4096 bytes), map `ErrShortSliceOrBuffer` to itself and every other
   classification error to `ErrNotASaltpackMessage`, then build — over the SAME
   reader, i.e. from byte 0 — `NewDecryptStream` / `NewDearmor62DecryptStream`
   (`CheckKnownMajorVersion`) for encryption, `NewSigncryptOpenStream` /
   `NewDearmor62SigncryptOpenStream` for signcryption, `ErrWrongMessageType`
-  otherwise; the outcome is that decoder read to its end.  The direct entry
-  points are the existing receiver models (`Decrypt.openStream`,
-  `Signcrypt.openStream` behind `Wire.split…`; the armored ones behind
-  `Armor.open62 (some mtEncryption)`), about which C02/C04/C11/C13 speak.
-  Correspondence: `dispatch.model` (genuine, truncated, bit-flipped, trailing,
-  wrong-frame, re-flowed armored and binary messages of all four modes, under
-  five fragmentations) and `dispatch.machine` (through the bufio machine over
-  scripts, including a fault inside the classified range).
+  otherwise; the outcome is that decoder read to the END of the reader: all its
+  bytes and its final condition (`Dispatch.End`: a clean EOF or a read error).
 
-  Partial: for ARMORED input that the armor layer rejects, model and code are
-  compared as ok-versus-error only (a streamed armored message that fails late may
-  already have released plaintext; `Armor.openPure` documents the same limit).
+  What is a THEOREM here and what a definition (audit finding #5):
+  * `…_def` theorems restate the model's own `switch` (they are unfoldings; that
+    the Go code has this control flow is the correspondence's business:
+    `dispatch.model`, `dispatch.shapes`, `dispatch.machine`, `classify.dispatch`);
+  * `C16_dispatch_direct` / `_genuine_binary` / `_identities` compare the
+    dispatcher with the byte-level receivers of `Model/Front.lean` —
+    `Decrypt.openBytes`, `Signcrypt.openBytes`, the models of
+    `NewDecryptStream(bytes.NewReader(msg))` / `NewSigncryptOpenStream(…)` read to
+    the end, about which the `C02/C04/C15/C17 …_bytes` theorems speak and which are
+    driven by their own streams (`enc.open`, `sc.open`) — not with a private copy;
+  * `C16_dispatch_machine*` tie the dispatcher over the bufio machine (every
+    fragmentation, data-with-EOF, data-with-error, a read error after the
+    classified range, any initial reader state) to the pure dispatcher on the
+    bytes and the final condition of the source.
+
+  Partial: for ARMORED input that the armor layer rejects, and for an armored
+  stream whose source ends in an error, model and code are compared as
+  ok-versus-error only (a streamed armored message that fails late may already
+  have released plaintext; `Armor.openPure` documents the same limit).  The
+  brand returned by the armored decoders is not part of `Dispatch.Result`.
 -/
 import Saltpack.Proofs.Dispatch
 
@@ -28,32 +39,81 @@ namespace Saltpack.Props.C16
 open Saltpack Saltpack.Classify Saltpack.Dispatch Saltpack.Stream Saltpack.Bufio Saltpack.Proofs
 open Saltpack.Proofs.BufioP Saltpack.Proofs.DispatchP
 
-/-- **The dispatcher's outcome equals that of the direct entry point named by the
-    verdict, on the same bytes** (for every primitive instance, keyring, resolver
-    and stream): binary/armored × encryption/signcryption; attached and detached
-    signatures are refused with `ErrWrongMessageType` -/
+/-- the model's `switch msgType`, restated (an unfolding of `Dispatch.build`):
+    which decoder is built for which verdict, over the bytes `all` and the final
+    condition `e` of the reader -/
+theorem C16_dispatch_switch_def (P : Prims) (kr : Keyring) (res : Signcrypt.Resolver) (size : Nat) (all : Bytes) (e : End)
+    (arm : Bool) (b : Bytes) (t : Int) (v : Version) (h : classifyStream size all = .ok (arm, b, t, v)) :
+    (t = mtEncryption → dispatchEnd P kr res size all e =
+      ⟨arm, t, v, if arm then dearmor62DecryptStream P kr all e else decryptStream P kr all e⟩) ∧
+    (t = mtSigncryption → dispatchEnd P kr res size all e =
+      ⟨arm, t, v, if arm then dearmor62SigncryptOpenStream P kr res all e else signcryptOpenStream P kr res all e⟩) ∧
+    (t = mtAttached ∨ t = mtDetached → dispatchEnd P kr res size all e = refuse .wrongMessageType) := by
+  unfold dispatchEnd
+  rw [h]
+  refine ⟨?_, ?_, ?_⟩
+  · rintro rfl; exact build_enc P kr res arm b v all e
+  · rintro rfl; exact build_sc P kr res arm b v all e
+  · rintro (rfl | rfl)
+    · exact build_other P kr res arm b _ v all e mt_distinct.2.1 mt_distinct.2.2.1
+    · exact build_other P kr res arm b _ v all e mt_distinct.2.2.2.1 mt_distinct.2.2.2.2
+
+/-- the model's refusals, restated (an unfolding): non-saltpack, EOF and
+    too-short verdicts build no decoder — nothing released, no key object
+    called: the outcome is `.fail` — whatever the reader ends with -/
+theorem C16_dispatch_refuses_def (P : Prims) (kr : Keyring) (res : Signcrypt.Resolver) (size : Nat) (all : Bytes) (e : End) :
+    (classifyStream size all = .notSaltpack → dispatchEnd P kr res size all e = refuse .notASaltpackMessage) ∧
+    (classifyStream size all = .eof → dispatchEnd P kr res size all e = refuse .notASaltpackMessage) ∧
+    (classifyStream size all = .short → dispatchEnd P kr res size all e = refuse .shortSliceOrBuffer) :=
+  dispatch_refuses P kr res size all e
+
+/-- **The dispatcher's outcome on the bytes `all` of a cleanly ending source IS
+    the outcome of the byte-level receiver of the mode the classifier reports**
+    (for every primitive instance, keyring, resolver and byte string):
+    binary → `Decrypt.openBytes` (with `CheckKnownMajorVersion`) / `Signcrypt.openBytes`
+    on the same bytes; armored → `Armor.open62` under the ENCRYPTED MESSAGE frame
+    checks, then the same receivers on the payload; the whole receiver result —
+    released bytes, error, `mki` resp. sender, key-object calls — is equal.
+    Attached and detached signatures are refused with `ErrWrongMessageType`. -/
 theorem C16_dispatch_direct (P : Prims) (kr : Keyring) (res : Signcrypt.Resolver) (all : Bytes)
     (arm : Bool) (b : Bytes) (t : Int) (v : Version)
     (h : classifyStream defaultBufSize all = .ok (arm, b, t, v)) :
-    (t = mtEncryption → arm = false → dispatch P kr res all = ⟨false, t, v, decryptStream P kr all⟩) ∧
-    (t = mtEncryption → arm = true → dispatch P kr res all = ⟨true, t, v, dearmor62DecryptStream P kr all⟩) ∧
-    (t = mtSigncryption → arm = false → dispatch P kr res all = ⟨false, t, v, signcryptOpenStream P kr res all⟩) ∧
+    (t = mtEncryption → arm = false →
+      dispatch P kr res all = ⟨false, t, v, outEnc (Decrypt.openBytes P knownMajor kr all)⟩) ∧
+    (t = mtEncryption → arm = true →
+      dispatch P kr res all = ⟨true, t, v,
+        match Armor.open62 (some mtEncryption) all with
+        | .error e => .armorFail e
+        | .ok o => outEnc (Decrypt.openBytes P knownMajor kr o.payload)⟩) ∧
+    (t = mtSigncryption → arm = false →
+      dispatch P kr res all = ⟨false, t, v, outSc (Signcrypt.openBytes P kr res all)⟩) ∧
     (t = mtSigncryption → arm = true →
-      dispatch P kr res all = ⟨true, t, v, dearmor62SigncryptOpenStream P kr res all⟩) ∧
+      dispatch P kr res all = ⟨true, t, v,
+        match Armor.open62 (some mtEncryption) all with
+        | .error e => .armorFail e
+        | .ok o => outSc (Signcrypt.openBytes P kr res o.payload)⟩) ∧
     (t = mtAttached ∨ t = mtDetached → dispatch P kr res all = refuse .wrongMessageType) :=
   dispatch_direct P kr res all arm b t v h
 
-/-- **non-saltpack and too-short input is refused** (nothing released, no key
-    object called: the outcome is `.fail`) -/
-theorem C16_dispatch_refuses (P : Prims) (kr : Keyring) (res : Signcrypt.Resolver) (all : Bytes) :
-    (classifyStream defaultBufSize all = .notSaltpack → dispatch P kr res all = refuse .notASaltpackMessage) ∧
-    (classifyStream defaultBufSize all = .eof → dispatch P kr res all = refuse .notASaltpackMessage) ∧
-    (classifyStream defaultBufSize all = .short → dispatch P kr res all = refuse .shortSliceOrBuffer) :=
-  dispatch_refuses P kr res all
+/-- the same, spelled out for plaintext and identities: whenever the byte-level
+    receiver answers `r`, the dispatcher's decoder answers `r` — same released
+    bytes, same error, same `mki` (encryption) resp. same sender (signcryption) -/
+theorem C16_dispatch_identities (P : Prims) (kr : Keyring) (res : Signcrypt.Resolver) (all : Bytes)
+    (b : Bytes) (t : Int) (v : Version) (h : classifyStream defaultBufSize all = .ok (false, b, t, v)) :
+    (∀ r, t = mtEncryption → Decrypt.openBytes P knownMajor kr all = .ok r →
+      ∃ d, (dispatch P kr res all).out = .enc d ∧ d.released = r.released ∧ d.mki = r.mki ∧ d.err = r.err ∧
+        d.calls = r.calls) ∧
+    (∀ r, t = mtSigncryption → Signcrypt.openBytes P kr res all = .ok r →
+      ∃ d, (dispatch P kr res all).out = .sc d ∧ d.released = r.released ∧ d.sender = r.sender ∧ d.err = r.err ∧
+        d.calls = r.calls) := by
+  obtain ⟨h1, _, h3, _, _⟩ := dispatch_direct P kr res all false b t v h
+  refine ⟨fun r ht hr => ⟨r, ?_, rfl, rfl, rfl, rfl⟩, fun r ht hr => ⟨r, ?_, rfl, rfl, rfl, rfl⟩⟩
+  · rw [h1 ht rfl, hr]; rfl
+  · rw [h3 ht rfl, hr]; rfl
 
 /-- **genuine binary messages** (header start of `C16_binary_correct`): an
-    encryption message goes to `NewDecryptStream`, a signcryption message to
-    `NewSigncryptOpenStream`, signatures are refused -/
+    encryption message is handed to `Decrypt.openBytes`, a signcryption message to
+    `Signcrypt.openBytes`, signatures are refused -/
 theorem C16_dispatch_genuine_binary (P : Prims) (kr : Keyring) (res : Signcrypt.Resolver)
     (btag atag tail : Bytes) (hb : IsBinTag btag) (ha : IsArrTag atag)
     (ma mi t : Nat) (hma : ma < 128) (hmi : mi < 128) (ht : isMode (t : Int) = true)
@@ -61,31 +121,102 @@ theorem C16_dispatch_genuine_binary (P : Prims) (kr : Keyring) (res : Signcrypt.
       Msgpack.encode (.int t) ++ tail).length) :
     let msg := btag ++ atag ++ Msgpack.encode (.str Gen.c_sp_FormatName) ++ Msgpack.encode (.arr [.int ma, .int mi]) ++
       Msgpack.encode (.int t) ++ tail
-    ((t : Int) = mtEncryption → dispatch P kr res msg = ⟨false, mtEncryption, ⟨ma, mi⟩, decryptStream P kr msg⟩) ∧
-    ((t : Int) = mtSigncryption → dispatch P kr res msg = ⟨false, mtSigncryption, ⟨ma, mi⟩, signcryptOpenStream P kr res msg⟩) ∧
+    ((t : Int) = mtEncryption →
+      dispatch P kr res msg = ⟨false, mtEncryption, ⟨ma, mi⟩, outEnc (Decrypt.openBytes P knownMajor kr msg)⟩) ∧
+    ((t : Int) = mtSigncryption →
+      dispatch P kr res msg = ⟨false, mtSigncryption, ⟨ma, mi⟩, outSc (Signcrypt.openBytes P kr res msg)⟩) ∧
     ((t : Int) = mtAttached ∨ (t : Int) = mtDetached → dispatch P kr res msg = refuse .wrongMessageType) :=
   dispatch_genuine_binary P kr res btag atag tail hb ha ma mi t hma hmi ht hlen
 
-/-- **the decoder is built over the same reader, from byte 0**: the dispatcher on
-    the bufio machine over a scripted source (at least one buffer of bytes, any
-    fragmentation, any read size of the decoder) is the pure dispatcher on the
-    bytes of the source -/
-theorem C16_dispatch_machine (P : Prims) (kr : Keyring) (res : Signcrypt.Resolver) (src : Source) (cap fuel : Nat)
-    (hp : Progress src) (hcap : 0 < cap) (hfull : defaultBufSize ≤ (total src).1.length)
-    (hfuel : (total src).1.length + 1 ≤ fuel) :
-    dispatchM P kr res cap fuel src = dispatch P kr res (total src).1 :=
-  dispatchM_eq P kr res src cap fuel hp hcap hfull hfuel
+/-- what a read error at the end of the source does to the decoder's packet
+    stream: the items are unchanged; a clean tail (the read that would have met
+    `io.EOF`) becomes a decode error, an erroneous tail stays -/
+theorem C16_decoder_end_error {β : Type} (ps : PStream β) :
+    (withEnd .err ps).items = ps.items ∧
+    (withEnd .err ps).tail = (match ps.tail with | .eof => .err .decodeError | t => t) ∧
+    withEnd .eof ps = ps :=
+  ⟨(withEnd_err ps).1, (withEnd_err ps).2, withEnd_eof ps⟩
 
-/-- a reader error inside the classified range: "not a saltpack message", no decoder -/
+/-- **the decoder is built over the same reader and reads it to its end —
+    bytes AND final condition**: `bufio.NewReader(source)` over a scripted source
+    (every fragmentation, data-with-EOF, data-with-error; no `(0, nil)` reads), any
+    read size of the decoder.  If the source holds at least one buffer (4096
+    bytes) — whatever it ends with, a read error AFTER the classified range
+    included — or ends in a sticky EOF (any length), the machine dispatcher is the
+    pure dispatcher on the source's bytes and final condition: with a final read
+    error the decoder meets it where the bytes end (`C16_decoder_end_error`; the
+    real code released 6000 bytes and then returned `msgpack decode error … boom`) -/
+theorem C16_dispatch_machine (P : Prims) (kr : Keyring) (res : Signcrypt.Resolver) (src : Source) (cap fuel : Nat)
+    (hp : Progress src) (hcap : 0 < cap) (hfuel : (total src).1.length + 1 ≤ fuel)
+    (hcase : defaultBufSize ≤ (total src).1.length ∨ ((total src).2 = .eof ∧ EofSticky src)) :
+    dispatchSrc P kr res cap fuel src =
+      dispatchEnd P kr res defaultBufSize (total src).1 (End.of (.src (total src).2)) :=
+  dispatchSrc_eq P kr res src cap fuel hp hcap hfuel hcase
+
+/-- **streams that end in EOF, of ANY length** (the lift of
+    `C16_classify_then_drain_eof`; almost every real message is shorter than the
+    4096-byte buffer): the machine dispatcher is `dispatch` on the source's bytes,
+    i.e. (`C16_dispatch_direct`) the byte-level receiver of the detected mode -/
+theorem C16_dispatch_machine_eof (P : Prims) (kr : Keyring) (res : Signcrypt.Resolver) (src : Source) (cap fuel : Nat)
+    (hp : Progress src) (hst : EofSticky src) (heof : (total src).2 = .eof) (hcap : 0 < cap)
+    (hfuel : (total src).1.length + 1 ≤ fuel) :
+    dispatchSrc P kr res cap fuel src = dispatch P kr res (total src).1 :=
+  dispatchSrc_eof P kr res src cap fuel hp hst heof hcap hfuel
+
+/-- a reader error inside the classified range (a source that ends in an error
+    before 4096 bytes): "not a saltpack message", no decoder -/
 theorem C16_dispatch_machine_error (P : Prims) (kr : Keyring) (res : Signcrypt.Resolver) (src : Source) (cap fuel : Nat)
     (hp : Progress src) (x : Err) (hx : (total src).2 = .err x) (hshort : (total src).1.length < defaultBufSize) :
-    dispatchM P kr res cap fuel src = refuse .notASaltpackMessage :=
-  dispatchM_error P kr res src cap fuel hp x hx hshort
+    dispatchSrc P kr res cap fuel src = refuse .notASaltpackMessage :=
+  dispatchSrc_error P kr res src cap fuel hp x hx hshort
+
+/-- **any initial reader state** — the case `bufio.NewReader(source)` returns
+    `source` itself because it already is a `*bufio.Reader` with a buffer of at
+    least 4096 bytes (audit finding #13): with its own size `s.size` (so
+    `Peek(stream.Size())` peeks more), its buffered bytes and stored condition.
+    `view s` = what that reader will still deliver. -/
+theorem C16_dispatch_machine_state (P : Prims) (kr : Keyring) (res : Signcrypt.Resolver) (cap fuel : Nat) (s : BState)
+    (hi : Inv s) (hsz : 0 < s.size) (hcap : 0 < cap) (hfuel : (view s).1.length + 1 ≤ fuel)
+    (hcase : s.size ≤ (view s).1.length ∨ ((view s).2 = .src .eof ∧ StickyInv s ∧ (view s).1.length < s.size)) :
+    dispatchM P kr res cap fuel s = dispatchEnd P kr res s.size (view s).1 (End.of (view s).2) :=
+  dispatchM_state P kr res cap fuel s hi hsz hcap hfuel hcase
+
+/-- …and a stored or coming read error within its classified range: refused -/
+theorem C16_dispatch_machine_state_error (P : Prims) (kr : Keyring) (res : Signcrypt.Resolver) (cap fuel : Nat) (s : BState)
+    (hi : Inv s) (all : Bytes) (x : Err) (hv : view s = (all, .src (.err x))) (hshort : all.length < s.size) :
+    dispatchM P kr res cap fuel s = refuse .notASaltpackMessage :=
+  dispatchM_state_error P kr res cap fuel s hi all x hv hshort
 
 /-! ## non-vacuity -/
 example : classifyStream defaultBufSize [1, 2, 3] = .eof := by decide
 example : ∃ all arm b t v, classifyStream defaultBufSize all = .ok (arm, b, t, v) ∧ t = mtEncryption ∧ arm = false :=
   ⟨[0xc4, 0x40, 0x96, 0xa8] ++ Gen.c_sp_FormatName ++ [0x92, 2, 0, 0, 0xc4, 0x20] ++ List.replicate 14 7,
     false, [], 0, ⟨2, 0⟩, by decide +kernel, rfl, rfl⟩
+
+/-- a source of 5000 bytes in two deliveries that ends in a read error AFTER the
+    classified range meets the hypotheses of `C16_dispatch_machine` (first
+    disjunct); its final condition is an error -/
+example : let src : Source := [(List.replicate 4000 7, none), (List.replicate 1000 7, some (.err .ioError))]
+    Progress src ∧ defaultBufSize ≤ (total src).1.length ∧ End.of (.src (total src).2) = .err := by
+  refine ⟨?_, by decide +kernel, by decide +kernel⟩
+  intro p hp
+  simp only [List.mem_cons, List.not_mem_nil, or_false] at hp
+  rcases hp with rfl | rfl
+  · exact Or.inl (by decide +kernel)
+  · exact Or.inr (by simp)
+
+/-- a short EOF-ended script meets those of `C16_dispatch_machine_eof` -/
+example : let src : Source := [([66, 69], none), ([71, 73, 78], some .eof)]
+    Progress src ∧ EofSticky src ∧ (total src).2 = .eof := by
+  refine ⟨?_, ?_, by decide⟩
+  · intro p hp
+    simp only [List.mem_cons, List.not_mem_nil, or_false] at hp
+    rcases hp with rfl | rfl <;> simp
+  · intro p hp; cases hp
+
+/-- a used 8192-byte reader (3 bytes buffered, more to come) meets `Inv` -/
+example : Inv { size := 8192, src := [([1, 2], some .eof)], buf := [9, 9, 9], err := none } :=
+  { prog := by intro p hp; simp only [List.mem_cons, List.not_mem_nil, or_false] at hp; subst hp; simp,
+    fits := by decide, nofull := by simp }
 
 end Saltpack.Props.C16
